@@ -349,12 +349,14 @@ def oracle_eigs(c, obs):
             if r < 1e-6 * scale:
                 return bad
             q = x / r
-    if r is not None and r > 100.0 * c["tol"] * aq1 and r > 1e3 * 1.1e-16 * scale * n:
+    noise = 1.1e-16 * scale * n
+    acc = max(1e-6, 1e3 * noise / r) if r else None      # normalising a remainder of norm r amplifies rounding noise by noise/r
+    if r is not None and r > 100.0 * c["tol"] * aq1 and r > 1e3 * noise and acc <= 3e-2:
         lam = np.linalg.eigvalsh(S)
         if len(w) != n:
             bad.append(f"lanczos_eigs with max_iters >= n returned {len(w)} Ritz values for an operator of size {n} although the tolerance "
                        f"resolves the coupling (remainder {r:.3g} = {r / (c['tol'] * aq1):.3g} x tol*||A q_1||)")
-        elif hausdorff(w, lam) > 1e-6 * scale:
+        elif hausdorff(w, lam) > acc * scale:
             bad.append(f"lanczos_eigs with max_iters >= n and tol={c['tol']} does not return the spectrum of A (distance {hausdorff(w, lam):.3g})")
     return bad
 
